@@ -93,6 +93,11 @@ CATALOG = [
      [("R-PARAMFLOW", "thread_count-flows-into")]),
     ("sub-nondet", "subst", ("Hash/HashDAC.cpp", "  this->tsize = nearest_prime(tsize);", "  this->tsize = nearest_prime(tsize + (size_t)(getTime() * 0));"),
      [("R-NONDET", "HashDAC::HashDAC#calls-getTime")]),
+    ("sub-allocform", "subst", ("StringDictionaryPFC.cpp", "  delete[] textStrings;\n  delete blStrings;", "  delete textStrings;\n  delete blStrings;"),
+     [("R-ALLOCFORM", "StringDictionaryPFC::textStrings")]),
+    ("sub-vbyte", "subst", ("utils/VByte.cpp", "    c >>= 7;", "    c >>= 8;"), [("R-VBYTE", "VByte::encode<->VByte::decode")]),
+    ("sub-dupskip", "subst", ("iterators/IteratorDictStringFMINDEXDuplicates.h", "    } while (ids[processed - 1] == ids[processed]);", "    } while (processed < scanneable && ids[processed - 1] == ids[processed]);"),
+     [("R-DUPSKIP", "IteratorDictStringFMINDEXDuplicates::next#skip-condition")]),
     ("sub-lockorder", "subst", ("parallel/Worker.hpp", "  bool stopped() {\n    std::lock_guard lg(mutex_stop);\n    return _stopped;",
                                 "  bool stopped() {\n    std::lock_guard lg(mutex_stop);\n    std::lock_guard lg2(shared_mutex);\n    return _stopped;"),
      [("R-LOCKORDER", "")]),
